@@ -124,6 +124,11 @@ void hv_case(uint64_t index)
   uint64_t off = PAGE * hv_below(&R, 9); if (hv_chance(&R, 1, 2)) off = 0;
   int fd = memfd_create("hv-c19", 0); if (fd < 0) hv_fail("memfd_create: %s", strerror(errno));
   if (off) { char z[64] = "not a header"; if (pwrite(fd, z, sizeof z, 0) < 0) {} }
+  /* what the file already holds is part of the input: empty, a short header, exactly the bytes in front of the offset (e.g. another
+   * topology stored before this one), more than `length` but less than offset+length bytes, already large enough, larger */
+  { uint64_t sizes[] = { 0, 64, off, off + len / 2, len, off + len - 1, off + len, off + len + PAGE, len + PAGE }; unsigned k = (unsigned)hv_below(&R, sizeof sizes / sizeof *sizes);
+    if (hv_chance(&R, 2, 3)) { if (ftruncate(fd, (off_t)sizes[k]) != 0) hv_fail("ftruncate: %s", strerror(errno)); hv_desc("  file pre-sized to %llu bytes\n", (unsigned long long)sizes[k]);
+      hv_stat(sizes[k] >= len && sizes[k] < off + len ? "writes.file_holds_length_but_not_offset_plus_length" : sizes[k] >= off + len ? "writes.file_already_large_enough" : "writes.file_shorter_than_length", 1); } }
   void *whole; size_t whole_len; void *base = reserve(len, &whole, &whole_len);
   hv_desc("  length %zu offset %llu address %p\n", len, (unsigned long long)off, base);
   hv_ctxkey("write");
